@@ -3,6 +3,7 @@ package main
 import (
 	"fmt"
 	"reflect"
+	"regexp"
 	"strings"
 
 	"verif/internal/ev"
@@ -87,3 +88,37 @@ func c01fieldCases(c *ev.Ctx, f func(t gen.TypeCase, doc []byte) bool) {
 		}
 	}
 }
+
+// integer-keyed map destinations of every width x key spellings at and around each width's
+// range (each width has its own range check in generated code) and the spellings
+// strconv.ParseInt accepts beyond JSON's number grammar
+func c01intKeyTypes() []gen.TypeCase {
+	mk := func(k interface{}) gen.TypeCase {
+		t := reflect.MapOf(reflect.TypeOf(k), reflect.TypeOf(0))
+		return gen.TypeCase{Name: "intkey-" + t.String(), T: t}
+	}
+	return []gen.TypeCase{mk(int8(0)), mk(int16(0)), mk(int32(0)), mk(int64(0)), mk(int(0)),
+		mk(uint8(0)), mk(uint16(0)), mk(uint32(0)), mk(uint64(0)), mk(uint(0)), mk(uintptr(0))}
+}
+
+func c01intKeyDocs() []string {
+	var l []string
+	for _, k := range []string{"0", "-0", "1", "-1", "127", "128", "-128", "-129", "255", "256", "32767", "32768", "-32768", "-32769", "65535", "65536",
+		"2147483647", "2147483648", "-2147483648", "-2147483649", "4294967295", "4294967296", "8589934592", "9223372036854775807", "9223372036854775808",
+		"-9223372036854775808", "-9223372036854775809", "18446744073709551615", "18446744073709551616", "+1", "01", "00", " 1", "1 ", "1.0", "1e2", "", "0x10", "1_0"} {
+		l = append(l, fmt.Sprintf("{%q:7}", k), fmt.Sprintf("{\"5\":1,%q:7}", k))
+	}
+	return l
+}
+
+func c01intKeyTypeByName(name string) *gen.TypeCase {
+	for _, t := range c01intKeyTypes() {
+		if t.Name == name {
+			tc := t
+			return &tc
+		}
+	}
+	return nil
+}
+
+var c01intKeyRe = regexp.MustCompile(`"[+-]?\d+":`)
